@@ -236,6 +236,7 @@ theorem handler_ok {c : Cfg} {s s1 : St} {e : Env} {op : Op} {msgs : List Msg} (
       simp only [insOf, msgIn]
       split <;> omega
   | helperDeposit a0 a1 dur => cases h
+  | helperDepositAs x0 x1 a0 a1 dur => cases h
 
 /-! ### one transaction, all histories -/
 
